@@ -106,7 +106,10 @@ def _run_chunk(args):
         seed = _rng.run_seed(verif_seed, eng.NAME, idx // J)
         faulthandler.dump_traceback_later(per_run_timeout, exit=True)
         try:
-            case = eng.generate(seed, tier)
+            if 'index' in getattr(eng.generate, '__code__', type('c', (), {'co_varnames': ()})).co_varnames:
+                case = eng.generate(seed, tier, index=idx // J)     # engines that rotate a configuration axis over consecutive workloads
+            else:
+                case = eng.generate(seed, tier)
             if J > 1:
                 case['slice'] = [idx % J, J]
             case.setdefault('run_seed', seed)
